@@ -14,7 +14,7 @@ CFG = dict(
     level_note="Crash-freedom of code outside the modelled cores (internal/report, graph, symbolizer, html/template, Go runtime) cannot be "
                "excluded by these theorems; the internal consistency panics (AddToEdgeDiv, TrimTree, synth address, demangler mode) are "
                "left to exploration. Lines or sample types with bytes >= 0x80 are not compared with the model (Unicode white space), only judged by the spec.",
-    translators=[("gen-unittable", "Gen/Gen_UnitTable.v"), ("gen-c09tables", "Gen/Gen_C09Tables.v")],
+    translators=[("gen-unittable", "Gen/Gen_UnitTable.v"), ("gen-c09tables", "Gen/Gen_C09Tables.v"), ("gen-c09calltree", "Gen/Gen_C09CallTree.v")],
     rule="inputs: (1) tag-filter texts from a pool + grammar (sign, digits up to 41 places, unit suffix, ':' shapes, noise); (2) mappings "
          "(file, build id incl. 1/2/3-char, '..', glob metacharacters) for locateBinaries; (3) configure(name, value): every field/choice "
          "name x pools of bools/ints/floats/regexps/units/ranges; (4) URL query strings (escaped/unescaped/valueless, ';'); (5) interactive "
